@@ -145,27 +145,42 @@ def finishInput (x : SessFec) (dec : Option Fec.Decoder) (c : CoreIn) (recov : N
   let pp := postProcess x.enc x.headerSize c.outs gap
   ⟨{ x with s := { x.s with k := c.k }, dec := dec, enc := pp.enc }, pp.wire, c.errs, recov, c.fed, pp.panic⟩
 
-/-- `packetInput(d)` without cipher, then `kcpInput` -/
-def packetInput (C : Fec.CodecNew) (x : SessFec) (d : Bytes) (now : U32) (gap : Int) : InRes :=
-  if d.length < min IKCP_OVERHEAD (fecHeaderSizePlus2 + convSize) then ⟨x, [], 1, 0, 0, false⟩ else
+/-- what `kcpInput` does to the core and the decoder (before the core's output is post-processed) -/
+structure KIn where
+  c        : CoreIn
+  dec      : Option Fec.Decoder
+  recov    : Nat := 0
+  decPanic : Bool := false
+
+/-- the datagram passes the guards in front of `decode` -/
+def toDecoder (d : Bytes) : Bool :=
+  decide (¬ d.length < min IKCP_OVERHEAD (fecHeaderSizePlus2 + convSize) ∧
+    (Fec.flag d = typeData ∨ Fec.flag d = typeParity) ∧ ¬ d.length < fecHeaderSizePlus2)
+
+/-- `packetInput(d)` without cipher (the minimum-size check), then `kcpInput`, up to the last `Input` -/
+def kcpInputCore (C : Fec.CodecNew) (x : SessFec) (d : Bytes) (now : U32) : KIn :=
+  if d.length < min IKCP_OVERHEAD (fecHeaderSizePlus2 + convSize) then ⟨{ k := x.s.k, errs := 1 }, x.dec, 0, false⟩ else
   if Fec.flag d = typeData ∨ Fec.flag d = typeParity then
-    if d.length < fecHeaderSizePlus2 then ⟨x, [], 0, 0, 0, false⟩ else
+    if d.length < fecHeaderSizePlus2 then ⟨{ k := x.s.k }, x.dec, 0, false⟩ else
     -- lazy initialisation with the default ratio
     match (match x.dec with
            | some dc => some dc
            | none => Fec.Decoder.new C 1 1) with
-    | none => ⟨x, [], 0, 0, 0, true⟩
+    | none => ⟨{ k := x.s.k, panic := true }, x.dec, 0, false⟩
     | some dc =>
-      let c1 : CoreIn :=
-        if Fec.flag d = typeData then
-          CoreIn.input { k := x.s.k } (d.drop fecHeaderSizePlus2) true x.s.ackNoDelay now
-        else { k := x.s.k }
-      let dr := dc.decode C d
-      let c2 := feedRecovered x.s.ackNoDelay now c1 dr.recovered
-      finishInput x (some dr.st) c2 dr.recovered.length dr.panic gap
-  else if Fec.flag d = typeOOB then ⟨x, [], 0, 0, 0, false⟩
-  else
-    finishInput x x.dec (CoreIn.input { k := x.s.k } d true x.s.ackNoDelay now) 0 false gap
+      ⟨feedRecovered x.s.ackNoDelay now
+          (if Fec.flag d = typeData then
+             CoreIn.input { k := x.s.k } (d.drop fecHeaderSizePlus2) true x.s.ackNoDelay now
+           else { k := x.s.k })
+          (dc.decode C d).recovered,
+        some (dc.decode C d).st, (dc.decode C d).recovered.length, (dc.decode C d).panic⟩
+  else if Fec.flag d = typeOOB then ⟨{ k := x.s.k }, x.dec, 0, false⟩
+  else ⟨CoreIn.input { k := x.s.k } d true x.s.ackNoDelay now, x.dec, 0, false⟩
+
+/-- `packetInput(d)`: `kcpInput`, then the FEC stage of `postProcess` on what the core emitted -/
+def packetInput (C : Fec.CodecNew) (x : SessFec) (d : Bytes) (now : U32) (gap : Int) : InRes :=
+  finishInput x (kcpInputCore C x d now).dec (kcpInputCore C x d now).c (kcpInputCore C x d now).recov
+    (kcpInputCore C x d now).decPanic gap
 
 end SessFec
 end KcpVerif
